@@ -5,3 +5,4 @@ import X86Model.Model.Page
 import X86Model.Spec.Canon
 import X86Model.Properties.C05
 import X86Model.Properties.C18
+import X86Model.Properties.C17
